@@ -85,7 +85,10 @@ impl C13 {
                 let thr = e.mul(&one_minus_s);
                 // the contract inverts the belief price in 18-digit fixed point: the expected return
                 // carries an absolute error of up to offer x 10^-18 (and is floored)
-                let delta = Q::int(1).add(&Q::int(offer.amount.u128()).mul(&Q::ratio(2, 10u128.pow(18))));
+                // ... and the slippage ratio itself is an 18-digit decimal: another expected x 10^-18
+                let delta = Q::int(2)
+                    .add(&Q::int(offer.amount.u128()).mul(&Q::ratio(2, 10u128.pow(18))))
+                    .add(&e.mul(&Q::ratio(2, 10u128.pow(18))));
                 let (ok, _) = Self::try_swap(c, &snap, sender, pool_id, offer, ask, *belief, *tol);
                 let netq = Q::int(net);
                 if ok && netq.le(&thr.sub(&delta)) {
